@@ -112,6 +112,7 @@ class SimNet:
         self.dropped = []           # (device, name, occurrence, kind)
         self.sockets = 0
         self.by_ip = {b.ip: b for b in bulbs}
+        self.send_cost = 0.0002
         sim.net = self
 
     def fire(self, kind):
@@ -246,7 +247,11 @@ class FakeSocket:
         heapq.heappush(self.inbox, (when, self._n, data, addr))
 
     def sendto(self, data, addr):
-        self.sim.preempt(('net.send',))
+        sim = self.sim
+        sim.preempt(('net.send',))
+        # sending costs (virtual) time, so a script that never waits still
+        # makes the clock move
+        sim.now += self.net.send_cost
         self.net.send(self, data, addr)
         return len(data)
 
